@@ -8,16 +8,32 @@
 (* information is attached and has-symbols flags updated; the result is    *)
 (* valid with unique ids; mappings that already carry symbols are left     *)
 (* alone unless force; no non-empty name becomes empty.                    *)
+(* SEQUENCES: the events of several runs on ONE profile follow each other  *)
+(* (step 1..of, in order); the specification carries, from run to run, the *)
+(* set of mappings that have counted as symbolised at any earlier point of *)
+(* the sequence (`ever`).  A has-symbols flag never goes back to false     *)
+(* (flags_kept), and what has once counted as symbolised is left alone by  *)
+(* every later run without force (seq_leftalone, seq_leftalone_partly) -   *)
+(* whatever the flags say by then.  The result of every run is a profile   *)
+(* the library accepts: CheckValid, Write + Parse, every line's function   *)
+(* an element of the function table (recorded by the harness from the real *)
+(* objects: cv, reparse, intable).                                         *)
 (***************************************************************************)
 EXTENDS CodecRules, Json
 
 Trace == ndJsonDeserialize("trace.ndjson")
-VARIABLES l, bad
+VARIABLES l, bad, ever
 
 Parts(s) == {s}   \* placeholder to keep SANY happy about unused EXTENDS
 HasPart(mode, w) == \E i \in 1..(Len(mode) - Len(w) + 1) : SubSeq(mode, i, i + Len(w) - 1) = w
 MapOf(p, id) == p.maps[CHOOSE i \in DOMAIN p.maps : p.maps[i].id = id]
-Failed(e) ==
+\* the mappings that count as symbolised: for the symbol service (has-functions) and for the local symbolizer (any of the three)
+Flagged(p) == [fn  |-> {p.maps[i].id : i \in {j \in DOMAIN p.maps : p.maps[j].hasfn}},
+               any |-> {p.maps[i].id : i \in {j \in DOMAIN p.maps : p.maps[j].hasfn \/ p.maps[j].hasfile \/ p.maps[j].hasline}}]
+Join(x, y) == [fn |-> x.fn \cup y.fn, any |-> x.any \cup y.any]
+\* what has counted as symbolised before run e of its sequence
+Before(e, ev) == IF e.step = 1 THEN Flagged(e.before) ELSE Join(ev, Flagged(e.before))
+Failed(e, ev) ==
   LET b == e.before  a == e.after
       ALines(i) == IF i \in DOMAIN a.locs THEN a.locs[i].lines ELSE <<"gone">>     \* (a result with fewer locations is rejected, not an evaluation error)
       p == [
@@ -48,16 +64,30 @@ Failed(e) ==
         remote_keeps_lined |-> e.force \/ e.mode # "remote" \/ \A i \in DOMAIN b.locs : Len(b.locs[i].lines) > 0 => ALines(i) = b.locs[i].lines,
         \* symbol information is only ever attached: a location never loses its lines
         attached |-> \A i \in DOMAIN b.locs : Len(b.locs[i].lines) > 0 => Len(ALines(i)) > 0,
-        none     |-> e.none => (a = b) ]
+        none     |-> e.none => (a = b),
+        \* has-symbols flags are only ever set: a run that finds nothing leaves the lines AND the flags
+        flags_kept |-> \A i \in DOMAIN b.maps : i \in DOMAIN a.maps =>
+                         /\ (b.maps[i].hasfn => a.maps[i].hasfn) /\ (b.maps[i].hasfile => a.maps[i].hasfile)
+                         /\ (b.maps[i].hasline => a.maps[i].hasline) /\ (b.maps[i].hasinl => a.maps[i].hasinl),
+        \* the same two rules over the history of the sequence: symbolised ONCE (initially or by an earlier run) = left alone
+        seq_leftalone |-> e.force \/ \A i \in DOMAIN b.locs :
+                         (b.locs[i].map # 0 /\ b.locs[i].map \in ev.fn) => ALines(i) = b.locs[i].lines,
+        seq_leftalone_partly |-> e.force \/ e.remote \/ \A i \in DOMAIN b.locs :
+                         (b.locs[i].map # 0 /\ b.locs[i].map \in ev.any) => ALines(i) = b.locs[i].lines,
+        \* whatever the plug-ins answer, the library accepts the result: CheckValid passes, the written profile parses,
+        \* every line's function is an element of the function table (the real objects, not only their ids)
+        wellformed |-> Valid(b) => (e.cv = "" /\ e.reparse /\ e.intable) ]
   IN {f \in DOMAIN p : ~p[f]}
-Init == l = 1 /\ bad = {}
+Init == l = 1 /\ bad = {} /\ ever = [fn |-> {}, any |-> {}]
 Step == /\ l <= Len(Trace) /\ l' = l + 1
-        /\ LET fl == Failed(Trace[l]) IN
+        /\ LET ev == Before(Trace[l], ever)
+               fl == Failed(Trace[l], ev) IN
              /\ bad' = IF fl = {} THEN bad ELSE bad \cup {l}
+             /\ ever' = Join(ev, Flagged(Trace[l].after))
              /\ (IF fl = {} THEN TRUE ELSE PrintT(<<"VERIF-WHY", l, fl>>))
 Report == /\ l = Len(Trace) + 1
           /\ PrintT(<<"VERIF-CONSUMED", l - 1>>) /\ PrintT(<<"VERIF-REJECTED", bad>>)
-          /\ l' = l + 1 /\ UNCHANGED bad
+          /\ l' = l + 1 /\ UNCHANGED <<bad, ever>>
 Next == Step \/ Report
-Spec == Init /\ [][Next]_<<l, bad>>
+Spec == Init /\ [][Next]_<<l, bad, ever>>
 =============================================================================
